@@ -236,8 +236,12 @@ def run_unit(c):
         X2 = {j: bary(tp2[j]) for j in range(len(tp2))}
         inter, planes, polys, i1, i2 = ti.intersect_tetrahedron_pairs(
             [tuple(p) for p in a["pairs"]], tp1, tp2, ep1, ep2, X1, X2, float(a["E1"]), float(a["E2"]))
-        return dict(inter=bool(inter), planes=L(planes) if len(i1) else [], polys=[L(p) for p in polys],
-                    i1=[int(i) for i in i1], i2=[int(j) for j in i2])
+        direct = []
+        for i, j in a["pairs"]:
+            it, (pl, po) = hc.intersect_tetrahedron_pair(A(tp1[i]), A(ep1[i]), X1[i], A(tp2[j]), A(ep2[j]), X2[j], float(a["E1"]), float(a["E2"]))
+            direct.append(dict(inter=bool(it), plane=L(pl), poly=None if po is None else L(po)))
+        return dict(out=None, inter=bool(inter), planes=L(planes) if len(i1) else [], polys=[L(p) for p in polys],
+                    i1=[int(i) for i in i1], i2=[int(j) for j in i2], direct=direct)
     raise ValueError(fn)
 
 
